@@ -134,4 +134,12 @@ Extractor is shared, touches the maps unlocked). -/
 theorem inventory_all_locked :
     ∀ e ∈ lockInventory, e.1 ≠ "NewExtractor" → e.2.2.2 = true := by decide
 
+/-- package-level state ("independent Readers and Writers do not interfere"): every access to a
+mutex-guarded package-level cache in the reviewed inventory — which is compared with the one
+re-extracted from font/cmap and font/mapping on every run — holds the mutex (directly, or because
+every caller of the unexported helper does). -/
+theorem pkg_inventory_all_guarded :
+    ∀ e ∈ pkgInventory, e.2.2.2.2 = "locked" ∨ e.2.2.2.2 = "caller" ∨ e.2.2.2.2 = "init" ∨ e.2.2.2.2 = "once" := by
+  decide
+
 end PdfVerif.C18concX
